@@ -571,20 +571,20 @@ def hostile_mask(rng, tier):
 
 # ------------------------------------------------------------------------------ units
 def run_unit(ctx, u):
+    # the geometry of a case is drawn from a generator seeded by the case itself (not by its position in the unit), so
+    # that a replay that skips the other cases of the unit re-executes exactly the same inputs
     if u["kind"] == "enum":
-        rng = gen.rng_for(ctx.seed, NO, 1, u["H"], u["W"], u["start"])
-        for m in gen.all_masks(u["H"], u["W"], u["start"], u["stop"]):
-            check_mask(ctx, "enum", m, rng)
+        for bits, m in zip(range(u["start"], u["stop"]), gen.all_masks(u["H"], u["W"], u["start"], u["stop"])):
+            check_mask(ctx, "enum", m, gen.rng_for(ctx.seed, NO, 1, u["H"], u["W"], bits))
     elif u["kind"] == "pad":
-        rng = gen.rng_for(ctx.seed, NO, 2, u["H"], u["W"], u["start"])
-        for inner in gen.all_masks(u["H"], u["W"], u["start"], u["stop"]):
+        for bits, inner in zip(range(u["start"], u["stop"]), gen.all_masks(u["H"], u["W"], u["start"], u["stop"])):
             for k in KERNELS:
                 for variant in range(5):
                     if variant in (1, 2) and k[0] == 1:
                         continue
                     if variant in (3, 4) and k[1] == 1:
                         continue
-                    check_padded(ctx, inner, k, variant, rng)
+                    check_padded(ctx, inner, k, variant, gen.rng_for(ctx.seed, NO, 2, u["H"], u["W"], bits, k[0], k[1], variant))
     elif u["kind"] == "rand":
         for i in range(u["start"], u["stop"]):
             rng = gen.rng_for(ctx.seed, NO, 3, i)
